@@ -195,6 +195,24 @@ def _w_long(chunk):
     return r
 
 
+def _w_round(chunk):
+    """p . 0^m and p . 9^m for every prefix p < 1000: exact powers of ten inside the number (blocks that
+    become exactly 10^9, 10^18 after one step)."""
+    r = core.Res()
+    lo, hi = chunk
+    for p_ in range(max(lo, 1), hi):
+        for m in range(1, 31):
+            for s in (str(p_) + '0' * m, str(p_) + '9' * m):
+                with unlimited():
+                    v = int(s)
+                for b in range(10):
+                    for op in OPS:
+                        check_one(r, op, s, b, v)
+                r.states += 1
+                r.nontriv += 1
+    return r
+
+
 def _w_huge(args):
     r = core.Res()
     d, n = args
@@ -226,6 +244,7 @@ def run(ctx):
     else:
         chunks = [([m], True) for m in range(1, 1301)]
     ctx.pmap(_w_long, chunks)
+    ctx.pmap(_w_round, core.ranges(1000, 25)[0:] if True else [])
     # of any length: beyond 4300 digits (the interpreter's int<->str conversion limit) too
     ctx.pmap(_w_huge, [(d, n) for d in '19375' for n in (4299, 4300, 4301, 4400, 9000)])
     ctx.cov['model_transitions_reachable'] = len(model)
